@@ -23,7 +23,11 @@ func init() {
 	vhRegister("vh_C06_expiry", vh_C06_expiry)
 	vhRegister("vh_C06_expiry_values", vh_C06_expiry_values)
 	vhRegister("vh_C08_sublayouts", vh_C08_sublayouts)
+	vhRegister("vh_C08_authorized", vh_C08_authorized)
 	vhRegister("vh_C09_inspections", vh_C09_inspections)
+	vhRegister("vh_C09_order", vh_C09_order)
+	vhRegister("vh_C06_wiring", vh_C06_wiring)
+	vhRegister("vh_C05_wiring", vh_C05_wiring)
 }
 
 var vhEvents []string
@@ -42,7 +46,15 @@ func vhProv(ok bool) {
 		vhProvenanceOK = false
 	}
 }
-func vhFail(stage string) bool { return vBool("fail." + stage) }
+var vhFailedStages []string
+
+func vhFail(stage string) bool {
+	if vBool("fail." + stage) {
+		vhFailedStages = append(vhFailedStages, stage)
+		return true
+	}
+	return false
+}
 
 // vhExpectParam: when set, every stage must see the signed layout content with
 // its {P} markers replaced by exactly this value (vh_C01_reverify).
@@ -325,9 +337,9 @@ var vhStageOrder = []string{"expiry", "certs", "load", "thresholds", "sublayouts
 func vh_C01_wiring(a []int)      { vhC01(a, false) }
 func vh_C01_wiring_twin(a []int) { vhC01(a, true) }
 
-func vhC01(a []int, twin bool) {
+func vhWiringRun(a []int) (stages []string, res Metadata, err error, sigOK bool) {
 	entry, nkeys, nsigs := a[0], a[1], a[2]
-	vhEvents, vhProvenanceOK = nil, true
+	vhEvents, vhProvenanceOK, vhProvFailedAt, vhFailedStages = nil, true, "", nil
 	layout := Layout{Type: "layout", Readme: vhLayoutTag,
 		Steps:   []Step{{Type: "step", SupplyChainItem: SupplyChainItem{Name: "the-step"}}},
 		Inspect: []Inspection{{Type: "inspection", SupplyChainItem: SupplyChainItem{Name: "the-inspection"}}}}
@@ -346,7 +358,7 @@ func vhC01(a []int, twin bool) {
 		supplied = append(supplied, k)
 	}
 	// reference: every supplied key has a first matching signature that is valid
-	sigOK := nkeys >= 1
+	sigOK = nkeys >= 1
 	for _, k := range supplied {
 		found := false
 		for j, s := range env.sigs {
@@ -362,8 +374,6 @@ func vhC01(a []int, twin bool) {
 			sigOK = false
 		}
 	}
-	var res Metadata
-	var err error
 	vhStepNameArg = vConcStr(vPick("stepname", "", "STEPNAME-ARG"))
 	if entry == 0 {
 		vhRunDirArg = ""
@@ -373,17 +383,21 @@ func vhC01(a []int, twin bool) {
 		res, err = InTotoVerifyWithDirectory(env, keys, "LINKDIR-ARG", "RUNDIR-ARG", vhStepNameArg, map[string]string{}, [][]byte{[]byte("PEM-ARG")}, true)
 	}
 	vObserve("verify", err == nil, len(vhEvents))
-	if twin {
-		vAssert("C01.twin", false)
-		vReach("C01.end")
-		return
-	}
 	// stages seen, without the run directory probes
-	var stages []string
 	for _, e := range vhEvents {
 		if e != "stat" {
 			stages = append(stages, e)
 		}
+	}
+	return
+}
+
+func vhC01(a []int, twin bool) {
+	stages, res, err, sigOK := vhWiringRun(a)
+	if twin {
+		vAssert("C01.twin", false)
+		vReach("C01.end")
+		return
 	}
 	if len(stages) > 0 {
 		vAssert("C01.no-stage-before-layout-signatures-verified", sigOK)
@@ -474,6 +488,91 @@ func vh_C01_reverify(a []int) {
 	vReach("C01.end")
 }
 
+// vh_C09_order: inspections are run only after every step check has passed (both entry points),
+// their rules are evaluated after the commands ran, and a successful verification ran them.
+// a as vh_C01_wiring
+func vh_C09_order(a []int) {
+	stages, _, err, _ := vhWiringRun(a)
+	pos := func(name string) int {
+		for i, s := range stages {
+			if s == name {
+				return i
+			}
+		}
+		return -1
+	}
+	pi := pos("inspections")
+	if pi >= 0 {
+		before := pi == 8
+		for i := 0; before && i < 8; i++ {
+			before = stages[i] == vhStageOrder[i]
+		}
+		vAssert("C09.inspections-run-only-after-all-step-checks-passed", before)
+	}
+	if pr := pos("rules-inspections"); pr >= 0 {
+		vAssert("C09.inspection-rules-are-checked-after-the-commands-ran", pi >= 0 && pi < pr)
+	}
+	if err == nil {
+		vAssert("C09.accepted-implies-inspections-ran-and-their-rules-were-checked", pi >= 0 && pos("rules-inspections") > pi)
+	}
+	vReach("C09.end")
+}
+
+// vh_C06_wiring: both entry points check the expiry of the signed layout before anything else is
+// trusted: a failed expiry check fails verification, and no link is loaded and no inspection run after it.
+func vh_C06_wiring(a []int) {
+	stages, _, err, _ := vhWiringRun(a)
+	expired := len(vhFailedStages) > 0 && vhFailedStages[0] == "expiry"
+	ran := false
+	for _, s := range stages {
+		if s == "expiry" {
+			ran = true
+		}
+	}
+	if expired {
+		vAssert("C06.expired-layout-is-rejected", err != nil)
+		vAssert("C06.nothing-runs-after-a-failed-expiry-check", len(stages) == 1 && stages[0] == "expiry")
+	}
+	if err == nil {
+		vAssert("C06.accepted-implies-the-expiry-of-the-signed-layout-was-checked", ran && vhProvFailedAt != "expiry")
+	}
+	for i, s := range stages {
+		if s == "load" || s == "inspections" {
+			before := false
+			for _, t := range stages[:i] {
+				if t == "expiry" {
+					before = true
+				}
+			}
+			vAssert("C06.expiry-is-checked-before-links-are-loaded-or-inspections-run", before)
+		}
+	}
+	vReach("C06.end")
+}
+
+// vh_C05_wiring: the step rules, the inspection rules and the summary are computed from the reduced
+// (agreed) links of the verified steps — never from the unreduced link sets.
+func vh_C05_wiring(a []int) {
+	stages, res, err, _ := vhWiringRun(a)
+	vAssert("C05.rules-and-summary-are-given-the-reduced-links",
+		vhProvFailedAt != "reduce" && vhProvFailedAt != "rules-steps" && vhProvFailedAt != "rules-inspections" && vhProvFailedAt != "summary")
+	for i, s := range stages {
+		if s == "rules-steps" || s == "summary" {
+			reducedBefore := false
+			for _, t := range stages[:i] {
+				if t == "reduce" {
+					reducedBefore = true
+				}
+			}
+			vAssert("C05.reduction-precedes-rules-and-summary", reducedBefore)
+		}
+	}
+	if err == nil {
+		vAssert("C05.accepted-returns-the-summary-of-the-reduced-links", res == vhSummary && res != nil)
+	}
+	vReach("C05.end")
+}
+
 // ---- C06 ---------------------------------------------------------------------
 
 var vhParseLayout, vhParseValue string
@@ -518,7 +617,7 @@ func vhTimeUntil(t time.Time) time.Duration {
 // UTC schema and does not lie in the past.
 func vh_C06_expiry(a []int) {
 	vhParseCalls, vhUntilCalls, vhParsedAsUTC = 0, 0, true
-	vhRemaining = vInt("remaining-ns", -1000000000000, 1000000000000)
+	vhRemaining = vInt("remaining-ns", -9223372036854775808, 9223372036854775807) // any duration, incl. the saturated extremes time.Until returns
 	exp := vPick("expires", "2030-01-01T00:00:00Z", "2000-01-01T00:00:00Z", "2030-01-01T00:00:00+01:00", "", "garbage")
 	err := VerifyLayoutExpiration(Layout{Expires: exp})
 	vObserve("expiry", err == nil)
@@ -534,7 +633,7 @@ func vh_C06_expiry(a []int) {
 func vh_C06_expiry_values(a []int) {
 	vhParseCalls, vhUntilCalls = 0, 0
 	const h = 3600000000000
-	vals := []int{-48 * h, -24 * h, -24*h + 1, -23 * h, -h, -90000000000, -1000000000, -1, 0, 1, 1000000000, h, 24 * h, 1000 * h}
+	vals := []int{-9223372036854775808, -9223372036854775807, 9223372036854775807, -48 * h, -24 * h, -24*h + 1, -23 * h, -h, -90000000000, -1000000000, -1, 0, 1, 1000000000, h, 24 * h, 1000 * h}
 	vhRemaining = vals[vChoice("remaining", len(vals))]
 	exp := vPick("expires", "2030-01-01T00:00:00Z", "garbage")
 	err := VerifyLayoutExpiration(Layout{Expires: exp})
@@ -644,6 +743,28 @@ func vh_C08_sublayouts(a []int) {
 		}
 	} else {
 		vAssert("C08.error-only-from-a-failed-sublayout", len(vhRecCalls) >= 1 && out == nil)
+	}
+	vReach("C08.end")
+}
+
+// vh_C08_authorized: the real threshold stage feeding the real sublayout stage.  Two steps with their
+// own pubkeys; any functionary may offer a link or a layout for either step.  A layout is followed only
+// if the functionary who offers it is authorized for *that* step and its signature verifies.
+// a = {#entries per step, certificates as in vh_C02_foreignstep}
+func vh_C08_authorized(a []int) {
+	vhRecCalls = nil
+	layout, md, auth := vhForeignScenario(a[0], a[1], true)
+	verified, err := VerifyLinkSignatureThesholds(layout, md, nil, nil)
+	if err == nil {
+		_, serr := VerifySublayouts(layout, verified, "PARENT", [][]byte{[]byte("PEM-ARG")}, true)
+		vObserve("authorized", serr == nil, len(vhRecCalls))
+	} else {
+		vObserve("authorized", false, 0)
+	}
+	for _, c := range vhRecCalls {
+		ok, present := auth[c.stepName+"/"+c.keyIDs]
+		vAssert("C08.a-layout-is-followed-only-for-a-functionary-authorized-for-that-step", present && ok)
+		vAssert("C08.followed-with-that-functionary-key-in-the-step-directory", c.nkeys == 1 && c.keyMatches && c.linkDir == "PARENT/"+c.stepName+"."+c.keyIDs[:8])
 	}
 	vReach("C08.end")
 }
